@@ -219,7 +219,7 @@ function CEmitter:add_converted_val(type, val, valtype, force, untypedinit)
       self:add_nil_literal()
       self:add(')')
     else -- cast
-      local checked = not (force or untypedinit)
+      local checked = not force -- `untypedinit` only omits the type prefix, it must not drop the check
       self:add_typed_val(type, val, valtype, checked)
     end
   else
